@@ -64,7 +64,7 @@ const rule = "(a) skip, metamorphic, 3 dialects: the C02 base and a set of 1-8 n
 	"the same with a materialized view on both sides whose index list differs (added / dropped / modified index, every subset; a view added or dropped), so that index changes are also nested in a ModifyView, x every kind incl. AddView/DropView/ModifyView. " +
 	"(b) exclusion, API: realms of 1-2 schemas (tables incl. names with a dot, columns, named indexes/FKs/checks) x sets of 1-4 patterns from a grammar (1-3 parts; literal, *, prefix*, ?, [ab]* classes, CSV-quoted names containing a dot, [type=a|b] selectors on any part); " +
 	"ExcludeRealm must remove exactly the resources an independent reference of the documented semantics says (both directions). " +
-	"(c) exclusion on a real SQLite engine: InspectRealm / InspectSchema with Exclude against the same reference; CLI: `schema apply --exclude <tables>` leaves excluded tables byte-identical (schema text + rows) while everything else converges, and `--env` with diff { skip { ... } } never performs a skipped kind of change. " +
+	"(c) exclusion on a real SQLite engine: InspectRealm / InspectSchema with Exclude against the same reference; CLI: `schema apply --exclude <tables>` (desired state given as database URL, HCL file, project-file data hcl_schema source with the patterns in the env, or SQL file) leaves excluded tables byte-identical (schema text + rows) while everything else converges, and `--env` with diff { skip { ... } } never performs a skipped kind of change. " +
 	"non-trivial = >=1 resource excluded and >=1 kept, or >=1 change skipped and >=1 kept; distinct key = (sub-check, patterns / skipped kinds, edit kinds)"
 
 func genPart(t *rapid.T, names []string, kinds []string) PPart {
@@ -180,6 +180,7 @@ func genEng(cliTier bool) func(t *rapid.T) EngCase {
 				c.Patterns = []Pattern{{{Glob: rapid.SampledFrom(tnames).Draw(t, "extable")}}}
 				c.Skip = []string{rapid.SampledFrom([]string{"drop_table", "drop_index", "add_table"}).Draw(t, "skip")}
 			}
+			c.Source = rapid.IntRange(0, 3).Draw(t, "source")
 			return c
 		}
 		for n := rapid.IntRange(1, 3).Draw(t, "npat"); n > 0; n-- {
@@ -304,6 +305,7 @@ func TestCheck(t *testing.T) {
 		tier := "exclude-engine"
 		if c.CLI {
 			tier = "cli"
+			col.Class("cli/desired-state-source=" + []string{"database-url", "hcl-file", "hcl_schema-data-source", "sql-file"}[c.Source])
 		}
 		col.Class(tier)
 		if out.Excluded > 0 && out.Kept > 0 || len(c.Skip) > 0 {
@@ -311,7 +313,7 @@ func TestCheck(t *testing.T) {
 			for _, p := range c.Patterns {
 				ps = append(ps, p.String())
 			}
-			col.NonTrivial(fmt.Sprintf("%s|%s|%v|%v", tier, strings.Join(ps, " "), c.Skip, c.Edits))
+			col.NonTrivial(fmt.Sprintf("%s|%s|%v|%v|%d", tier, strings.Join(ps, " "), c.Skip, c.Edits, c.Source))
 		}
 		col.Sample(tier, c)
 		return err
@@ -319,7 +321,7 @@ func TestCheck(t *testing.T) {
 	if !ev.Rapid(t, col, "exclude-engine", col.N(1500, 200000), genEng(false), checkG, knownEng) {
 		return
 	}
-	ev.Rapid(t, col, "cli-exclude-and-skip", col.N(40, 3000), genEng(true), checkG, knownEng)
+	ev.Rapid(t, col, "cli-exclude-and-skip", col.N(80, 4000), genEng(true), checkG, knownEng)
 }
 
 func TestReplay(t *testing.T) {
